@@ -9,15 +9,26 @@ from vlib.runner import SubCheck
 PROPERTY = "C11"
 RULE = ("Generated point arrays N in [0,80], d in [1,4] of six kinds (uniform floats, small-integer lattices with many "
         "duplicates, clusters with exact duplicates, collinear sets, all-identical sets, sets where more than half of the points "
-        "share the maximum on one/all axes) x leaf size 1-8 x strategy balanced/fast/random (numpy.random seeded from the "
-        "case) x 1-4 queries (query point on a data point / inside / outside the bounding box / midpoint of two data points, "
-        "k in [1,N+3], radius >=0 incl. 0 and the exact distance to a data point). The build runs under a split counter "
-        "(termination certificate), the leaves are compared with range(N), every query with a brute-force scan (integer "
-        "arithmetic when all coordinates are dyadic). Two sub-checks share the generator: 'queries' (build, then kNN + radius "
-        "queries; a case whose build diverges is discarded there) and 'build' (termination certificate + leaf partition, no "
-        "queries). non-trivial = N > leaf size (the tree has an inner node) and, for 'queries', some query has k>1 or r>0; "
-        "distinct = distinct realised (points, parameters, queries).")
-ASSUMPTIONS = ["coordinates are finite floats of magnitude <= 1000 (no overflow/underflow of squared distances is probed)",
+        "share the maximum on one/all axes), then placed: array dtype float64/float32/float16/int8/uint8/int16/int32/int64 "
+        "(coordinates realised exactly as stored), uniform scale 1e-8..1e6, optional translation 10^1..10^8 times the cloud "
+        "size (integer lattices: up to the dtype's range) x leaf size 1-8 (sometimes 10-100) x strategy balanced/fast/random "
+        "in any capitalisation (numpy.random seeded from the case) x 1-4 queries ON THE SAME TREE (query point on a data "
+        "point / inside / outside the bounding box / midpoint of two data points / one of those perturbed by 1e-5..1e-10 of "
+        "the coordinate magnitude, given as Vec/ndarray/list/tuple; k in [1,N+3] or far above N, int or numpy integer; radius "
+        ">=0 incl. 0, the exact distance to a data point and that distance +-1e-5..1e-10 of the magnitude, given as "
+        "float/np.float64/np.float32/int). The build runs under a split counter (termination certificate), the leaves are "
+        "compared with range(N), every kNN and radius answer with a brute-force scan of the stored values (integer arithmetic "
+        "when all coordinates are dyadic, else 1e-12 x coordinate magnitude); after every call the caller's point array, "
+        "tree.points and the query object must be unchanged; for a third of the queries the returned list is overwritten and "
+        "the call repeated; one case in eight starts with a query of the wrong dimension. Sub-checks: 'queries', 'build' "
+        "(termination certificate + leaf partition only; a diverging build is discarded in 'queries'), 'large' (seed-generated "
+        "clouds of 100-400 or 1000-5000 points, same oracles). non-trivial = N > leaf size (the tree has an inner node) and, "
+        "for queries, some query has k>1 or r>0; distinct = distinct realised (points, dtype, parameters, queries).")
+ASSUMPTIONS = ["coordinates are finite, of magnitude <= 1e14 (float16 arrays <= 2e4) - no overflow/underflow of squared "
+               "distances is probed; query points and radii are float64 values (radii possibly passed as np.float32 objects "
+               "holding exactly that value)",
+               "the expected answer is defined on the values actually stored in the array (a float32 array holds float32 "
+               "values) and the query point exactly as given in double precision",
                "point arrays have shape (N,d) with d>=1 (N=0 is given as an empty (0,d) array)",
                "max_leaf_size >= 1, k >= 1, 0 <= r < inf",
                "termination: a non-terminating build is reported only with a divergence certificate (a no-progress split "
